@@ -155,6 +155,13 @@ class Func(Sym):
         return 'Func(%s)' % self.qualname
 
 
+class Forked:
+    """result of an attribute access whose evaluation (a property getter) forks: [(state, value), ...]"""
+
+    def __init__(self, results):
+        self.results = list(results)
+
+
 class PropertyCall:
     """marker: attribute access that must run a property getter"""
 
@@ -162,7 +169,7 @@ class PropertyCall:
         self.q, self.o = q, o
 
 
-SPEC_NAMES = {'TXT', 'ALL', 'SAME_ITEMS', 'MATCH', 'NOMATCH', 'UB', 'SORTED', 'SUFFIX', 'FRESH', 'ALLWS', 'NEXTBY_PRED'}
+SPEC_NAMES = {'TXT', 'ALL', 'SAME_ITEMS', 'ENDS_WITH', 'MATCH', 'NOMATCH', 'UB', 'SORTED', 'SUFFIX', 'FRESH', 'ALLWS', 'NEXTBY_PRED'}
 
 
 class ClosureEnv:
@@ -838,7 +845,11 @@ class Exec:
     def e_Attribute(self, node, st):
         out = []
         for s, o in self.eval(node.value, st):
-            out.append((s, self.getattr(o, node.attr, s)))
+            v = self.getattr(o, node.attr, s)
+            if isinstance(v, Forked):
+                out.extend(v.results)
+            else:
+                out.append((s, v))
         return out
 
     _ASSIGNED = {}
